@@ -54,9 +54,30 @@ claim('C15',
       TB + "Schedules are not explored: race-freedom is derived from frames, not observed. Writes to an EXISTING writable table from a function "
       "that is not under contract are not detected.", cat='other', technique='contract frames (DFCC assigns clauses) + writable-symbol baseline (nm)')
 
+claim('C01',
+      "Unbounded proof (all lengths, all limb contents, rp==up overlap) that mpn_mul_1, mpn_addmul_1 and mpn_submul_1 - the generic C kernels this "
+      "build links - satisfy the product carry chain r[k] + co*B = (r0[k] +/-) u[k]*v + ci at every position, incl. the returned high limb, "
+      "relative to the machine word multiply (mulq as an uninterpreted hi/lo pair).",
+      TB + "NOT decided: mpn_mul/mul_n/sqr and every algorithm above one row (schoolbook accumulation, Karatsuba, Toom, FFT), mpz_mul, mpz_mul_ui/si, "
+      "mpz_addmul/submul: they need mathematical integers / polynomial identities that CBMC's bit-vector logic cannot express; no unit exists for them.")
+claim('C02',
+      "Glue proofs over ASSUMED truncating division: for every value and every permitted aliasing of (q, r, n, d), mpz_fdiv_qr/q/r, mpz_cdiv_qr/q/r and "
+      "mpz_mod return exactly the manual's floor/ceiling/non-negative quotient and remainder expressed through the truncating pair (adjust iff the "
+      "remainder is non-zero and the signs differ / agree), keep a temporary copy of the divisor when it is an output, and raise DIVIDE_BY_ZERO iff d == 0.",
+      TB + "mpz_tdiv_qr/q/r are ASSUMED (uninterpreted quotient/remainder with sgn r in {0, sgn n}, |r| < |d|); values are 64-bit tokens for the interpreted "
+      "+/- steps. NOT covered: the truncating family itself, all _ui and _2exp forms, mpn_tdiv_qr/divrem/divrem_1/mod_1, divexact/divisible/congruent, "
+      "and the word-division primitives (undecided by SAT, DESIGN 8).", technique='contract-based glue proof against assumed callee contracts (value tokens, CBMC)')
+claim('C17',
+      "mpz_inp_raw: for EVERY 4-byte header the body region lies inside the (re)allocated block (no out-of-bounds write for any byte stream), the header "
+      "is decoded as a big-endian two's-complement byte count, limbs are reversed and byte-swapped exactly (unbounded, invariant-closed), and after a "
+      "failed or truncated read at any point the function returns 0 with a well-formed destination. mpz_out_raw: byte image = 4-byte signed count + "
+      "big-endian magnitude without leading zero bytes, every limb placed exactly; returns 0 iff the write fails; the scratch block is freed with its "
+      "exact size on both paths and nothing leaks.",
+      TB + "fread/fwrite are stubs with the ISO C contract (any transfer count <= requested, arbitrary buffer contents). The byte-level round trip "
+      "inp_raw(out_raw(x)) == x is the composition of the two limb-placement contracts (stated in DESIGN, not a separate machine-checked lemma). NOT "
+      "covered: mpz_export/import, out_str/inp_str for mpz/mpq/mpf, gmp_fprintf.")
+
 for p, why in (
-    ('C01', 'not yet implemented in this session (planned: mul_1/addmul_1/submul_1 L-proofs)'),
-    ('C02', 'not yet implemented in this session'),
     ('C06', 'not yet implemented in this session'),
     ('C07', 'not yet implemented in this session'),
     ('C08', 'not yet implemented in this session'),
